@@ -353,6 +353,16 @@ func (e *Engine) Run(t *core.Tape, cfg *core.Config, st *core.Stats) (viol *core
 				sb.WriteString([]string{" ", "\n", "  ", "\n\n", "\t", " \n "}[rng.Next()%6])
 			}
 		}
+		// one file in three ends, behind a blank, with the first byte of a two-byte character: the last read("*n")
+		// stops inside a character that the end of the file cuts short
+		cutChar := t.Choose(3) == 0
+		if cutChar {
+			if c := sb.String(); len(c) > 0 && c[len(c)-1] != ' ' && c[len(c)-1] != '\n' && c[len(c)-1] != '\t' {
+				sb.WriteString(" ")
+			}
+			sb.WriteString("\xc3")
+			st.Probe("numerals_end_inside_a_character")
+		}
 		np := filepath.Join(dir, "nums.txt")
 		content := strings.NewReplacer("\\n", "\n", "\\t", "\t").Replace(sb.String())
 		if err := os.WriteFile(np, []byte(content), 0o600); err != nil {
@@ -387,6 +397,22 @@ func (e *Engine) Run(t *core.Tape, cfg *core.Config, st *core.Stats) (viol *core
 					return v
 				}
 				st.Probe("numeral_ended_by_punctuation")
+			}
+		}
+		if cutChar {
+			// wherever the failed numeral left the cursor, an absolute seek defines it again
+			any := func([]string) bool { return true }
+			if v := do("N:read(1)  -- behind the numeral that failed (any result)", "return enc(N:read(1))", expect{accept: any}); v != nil {
+				return v
+			}
+			for j := 0; j < 2; j++ {
+				k := int(rng.Next() % uint64(len(content)))
+				if v := do(fmt.Sprintf("N:seek(\"set\", %d)", k), fmt.Sprintf("return enc(N:seek(\"set\", %d))", k), expect{vals: []string{fmt.Sprintf("D%d", k)}}); v != nil {
+					return v
+				}
+				if v := do("N:read(1)  -- the byte at the cursor", "return enc(N:read(1))", expect{vals: []string{"S" + content[k:k+1]}}); v != nil {
+					return v
+				}
 			}
 		}
 		if v := do("N:close()", "return enc(N:close())", expect{vals: []string{"T"}}); v != nil {
